@@ -10,6 +10,8 @@ Floats == {Flt(s, <<>>, 0) : s \in BOOLEAN} \cup {Flt(s, <<1>>, -1) : s \in BOOL
           \cup {Flt(s, <<1>>, 0) : s \in BOOLEAN}
           \cup {Flt(FALSE, <<1>>, 53), Flt(FALSE, AddMag(Pow2(52), <<1>>), 1), Flt(FALSE, <<1>>, 63), Flt(TRUE, <<1>>, 63),
                 Flt(FALSE, <<1>>, 64), Flt(FALSE, <<1>>, 127), Flt(TRUE, <<1>>, 127), Flt(FALSE, <<1>>, 128)}
+          \* tiny non-zero floats (2^-70 and 3*2^-200 are far below the machine epsilon): not zero, in comparisons and as divisors
+          \cup {Flt(s, <<1>>, -70) : s \in BOOLEAN} \cup {Flt(FALSE, <<3>>, -200)}
           \cup {NaN, Inf(FALSE), Inf(TRUE)}
 Nums == {IntN(v) : v \in Ints} \cup Floats
 Exps == {0, 1, 2, 3, 7, 31, 32, 63, 64, 126, 127, 128}
@@ -31,5 +33,5 @@ Emit == ~done \/
   CASE mode = "int" -> PrintT(<<"VEC", ToJson([mode |-> mode, a |-> a, b |-> b, neg |-> NegOp(a),
                           ops |-> [op \in {"+", "-", "*", "//", "%"} |-> IntOp(op, a, b)]])>>)
     [] mode = "pow" -> PrintT(<<"VEC", ToJson([mode |-> mode, a |-> a, e |-> e, r |-> PowOp(a, IF e < 0 THEN e + 2 ELSE e, e < 0)])>>)
-    [] mode = "cmp" -> PrintT(<<"VEC", ToJson([mode |-> mode, a |-> a, b |-> b, c |-> CmpNum(a, b)])>>)
+    [] mode = "cmp" -> PrintT(<<"VEC", ToJson([mode |-> mode, a |-> a, b |-> b, c |-> CmpNum(a, b), bzero |-> IsZeroNum(b)])>>)
 =============================================================================
